@@ -1,6 +1,7 @@
 import ClipVerif.Check.Region
 import ClipVerif.Check.Exact
 import ClipVerif.Check.Cover
+import ClipVerif.Check.Offset
 /-
 Line protocol helpers: integer token streams → paths / path sets, and the predicate table of
 the region checker.
@@ -164,5 +165,25 @@ def cover (mode : String) (ts : Toks) : String :=
       | _ => "parse-error cover sol"
     | none => "parse-error cover subj"
   | _, _ => "parse-error cover"
+
+/-- `offset <closedInput> <solution paths> <input paths> <n> {pxn pxd pyn pyd kind r2n r2d}` -/
+def offset (ts : Toks) : String :=
+  match ts with
+  | closed :: rest =>
+    match takePaths rest with
+    | some (sol, rest) => match takePaths rest with
+      | some (inp, n :: rest) =>
+        let rec go : Nat → Toks → List Check.OSample → Option (List Check.OSample)
+          | 0, [], acc => some acc.reverse
+          | 0, _, _ => none
+          | k+1, a :: b :: c :: d :: kind :: e :: f :: ts, acc =>
+            go k ts ({ p := ⟨(a : Rat) / (b : Rat), (c : Rat) / (d : Rat)⟩, kind := kind.toNat, r2 := (e : Rat) / (f : Rat) } :: acc)
+          | _, _, _ => none
+        match go n.toNat rest [] with
+        | some samples => Check.judgeOffset sol inp (closed != 0) samples
+        | none => "parse-error samples"
+      | _ => "parse-error input"
+    | none => "parse-error solution"
+  | _ => "parse-error offset"
 
 end Proto
